@@ -2,7 +2,6 @@ package main
 
 import (
 	"go/types"
-	"strings"
 
 	"golang.org/x/tools/go/ssa"
 )
@@ -19,9 +18,9 @@ func init() {
 func runC09(e *Engine, r *Report) {
 	cacheSet := r.need("(*internal/logdb.cache).setMaxIndex")
 	saveMI := r.need("(*internal/logdb.db).saveMaxIndex")
-	dbSet := r.need("(*internal/logdb.db).setMaxIndex")
+	dbSet := r.helper("(*internal/logdb.db).setMaxIndex") // wrapper around the cache setter and the KV put; may be inlined
 	getMI := r.need("(*internal/logdb.db).getMaxIndex")
-	if cacheSet == nil || saveMI == nil || dbSet == nil || getMI == nil {
+	if cacheSet == nil || saveMI == nil || getMI == nil {
 		return
 	}
 	isCall := func(f *ssa.Function) func(ssa.Instruction) bool {
@@ -29,6 +28,14 @@ func runC09(e *Engine, r *Report) {
 			c, ok := in.(*ssa.Call)
 			return ok && e.CallsTo(c, f)
 		}
+	}
+	// "sets the max index": the wrapper, or anything that on every return has written the KV record
+	putsMaxIndex := e.throughHelpers(func(c ssa.CallInstruction) bool { return e.CallsTo(c, saveMI) })
+	isSetMI := func(in ssa.Instruction) bool {
+		if dbSet != nil && isCall(dbSet)(in) {
+			return true
+		}
+		return putsMaxIndex(in)
 	}
 	// ---- cache and KV record move together
 	n := 0
@@ -38,8 +45,35 @@ func runC09(e *Engine, r *Report) {
 		key := "cache.setMaxIndex in " + fname(s.Parent())
 		if len(args) >= 4 && intConstV(0)(args[3]) {
 			// reset: allowed only after the node data (incl. the max index key) was removed
-			rnd := e.Func("(*internal/logdb.db).saveRemoveNodeData")
-			ok, _ := e.alwaysPrecededBy(s.(ssa.Instruction), isCall(rnd), 0)
+			// role: a step that deletes the max-index record - a helper (or the function
+			// itself) that builds the max-index key and issues a write-batch Delete
+			setMIKey := e.Func("(*internal/logdb.Key).SetMaxIndexKey")
+			deletesMaxIndex := func(g *ssa.Function) bool {
+				if g == nil || setMIKey == nil || len(e.SitesIn(g, setMIKey)) == 0 {
+					return false
+				}
+				del := false
+				forEachCall(g, func(c ssa.CallInstruction) {
+					if c.Common().IsInvoke() && c.Common().Method.Name() == "Delete" {
+						del = true
+					}
+				})
+				return del
+			}
+			isRemoval := func(in ssa.Instruction) bool {
+				c, ok := in.(*ssa.Call)
+				if !ok {
+					return false
+				}
+				for _, g := range e.Callees(c) {
+					if deletesMaxIndex(g) {
+						return true
+					}
+				}
+				// inlined form: the Delete itself, in a function that builds the max-index key
+				return c.Call.IsInvoke() && c.Call.Method.Name() == "Delete" && deletesMaxIndex(in.Parent())
+			}
+			ok, _ := e.alwaysPrecededBy(s.(ssa.Instruction), isRemoval, 0)
 			r.check(ok, "PAIR-maxindex", key+" (reset to 0 after node data removal)", e.ipos(s), "the cache is reset together with the removal of the max-index record", "the cached max index is reset without removing the stored record")
 			continue
 		}
@@ -79,8 +113,8 @@ func runC09(e *Engine, r *Report) {
 				if len(ts.Instrs) == 0 {
 					return
 				}
-				res := e.findPath(fn, ts.Instrs[0], func(x ssa.Instruction) bool { return isReturn(x) || x.Block() == in.Block() }, isCall(dbSet), nil)
-				if isCall(dbSet)(ts.Instrs[0]) || !res.Found {
+				res := e.findPath(fn, ts.Instrs[0], func(x ssa.Instruction) bool { return isReturn(x) || x.Block() == in.Block() }, isSetMI, nil)
+				if isSetMI(ts.Instrs[0]) || !res.Found {
 					okp = true
 				}
 			})
@@ -95,7 +129,7 @@ func runC09(e *Engine, r *Report) {
 				}
 				n++
 				// after a successful saveSnapshot the logical end is set to the snapshot index (db.setMaxIndex or saveMaxIndex)
-				barrier := func(in ssa.Instruction) bool { return isCall(dbSet)(in) || isCall(saveMI)(in) }
+				barrier := func(in ssa.Instruction) bool { return isSetMI(in) || isCall(saveMI)(in) }
 				// success edge of saveSnapshot
 				vals, _, _ := errValueOf(c)
 				okp := false
@@ -129,7 +163,7 @@ func runC09(e *Engine, r *Report) {
 					}
 				}
 				// saveSnapshots (snapshot-only path used by the snapshotter) does not touch the log end: exempt by design
-				if strings.HasSuffix(fname(fn), ".saveSnapshots") {
+				if ssFn := e.Func("(*internal/logdb.db).saveSnapshots"); ssFn != nil && (fn == ssFn || e.onlyCalledFrom(fn, map[string]bool{fname(ssFn): true}, map[string]bool{}, 2)) {
 					r.ok("PAIR-maxindex", "saveSnapshot in "+fname(fn)+" (snapshot record only)", e.ipos(s), "SaveSnapshots records snapshot metadata for a snapshot taken from the applied state; the log end is unchanged")
 					continue
 				}
